@@ -82,7 +82,7 @@ func selftest(args []string) int {
 			case "violation":
 				hit := false
 				for _, l := range strings.Split(string(out), "\n") {
-					if strings.Contains(l, "rule="+m.Rule) || (m.Rule == "" && strings.HasPrefix(l, "VIOLATION")) {
+					if anyRule(l, m.Rule) || (m.Rule == "" && strings.HasPrefix(l, "VIOLATION")) {
 						hit = true
 					}
 				}
@@ -167,7 +167,7 @@ func replayCorpus(prop, repo, verif string, jobs int) map[string]any {
 					failed = append(failed, filepath.Base(f))
 				}
 			default:
-				if code == 1 && strings.Contains(string(out), "rule="+m.Rule) {
+				if code == 1 && anyRule(string(out), m.Rule) {
 					killed++
 				} else {
 					failed = append(failed, filepath.Base(f))
@@ -179,4 +179,14 @@ func replayCorpus(prop, repo, verif string, jobs int) map[string]any {
 	sort.Strings(failed)
 	return map[string]any{"mutants": len(files), "killed": killed, "behaviour_preserving_silent": silentOK, "skipped_anchor_text_absent": skipped, "not_as_expected": failed,
 		"note": "checker validation only: single-site edits of /repo applied in memory through a go/packages overlay, one process each; does not influence the verdict"}
+}
+
+// anyRule: the output names one of the rules in spec ("A|B" lists alternatives).
+func anyRule(out, spec string) bool {
+	for _, r := range strings.Split(spec, "|") {
+		if strings.Contains(out, "rule="+r) {
+			return true
+		}
+	}
+	return false
 }
